@@ -287,6 +287,20 @@ def finding_matcher(name):
 
 
 # ---------------------------------------------------------------------------------------------- evidence + verdict
+def _repo_state() -> dict:
+    """which tree the correspondence ran against: path, HEAD and a digest of the uncommitted changes under pipefunc/"""
+    import hashlib
+    import subprocess
+    out = {"path": str(REPO)}
+    try:
+        out["head"] = subprocess.run(["git", "-C", str(REPO), "rev-parse", "--short", "HEAD"], capture_output=True, text=True, timeout=20).stdout.strip()
+        diff = subprocess.run(["git", "-C", str(REPO), "diff", "HEAD", "--", "pipefunc"], capture_output=True, timeout=20).stdout
+        out["working_tree"] = "clean" if not diff else "modified:" + hashlib.sha256(diff).hexdigest()[:12]
+    except Exception as e:  # noqa: BLE001
+        out["head"] = f"unknown ({type(e).__name__})"
+    return out
+
+
 def finish(ctx: Ctx, mod, aud: dict, build_ok: bool, build_log: str) -> int:
     replay_dir = VERIF / "replays"
     replay_dir.mkdir(exist_ok=True)
@@ -328,8 +342,14 @@ def finish(ctx: Ctx, mod, aud: dict, build_ok: bool, build_log: str) -> int:
         "assumptions": list(getattr(mod, "ASSUMPTIONS", [])),
         "wall_s": round(ctx.elapsed(), 2), "violations": n_viol,
     }
+    ev["coverage"]["repo"] = _repo_state()
     (VERIF / "evidence").mkdir(exist_ok=True)
-    (VERIF / "evidence" / f"{ctx.pid}.json").write_text(json.dumps(ev, indent=1, default=str))
+    if str(REPO) == "/repo":
+        (VERIF / "evidence" / f"{ctx.pid}.json").write_text(json.dumps(ev, indent=1, default=str))
+    else:   # a scratch worktree (seeded change, builder): never overwrite the evidence that is committed for /repo
+        sd = VERIF / "evidence" / ".scratch"
+        sd.mkdir(exist_ok=True)
+        (sd / f"{ctx.pid}.{REPO.name}.json").write_text(json.dumps(ev, indent=1, default=str))
     for l in lines:
         print(l)
     if ctx.suppressed:
